@@ -14,7 +14,8 @@ VARIANTS = ["repaired", "d_stale", "d_head"]
 # known-finding signatures
 SIG = {"stale": "stale-redelivery-applied", "lagdel": "bulk-sync-cannot-convey-missed-delete",
        "race": "sender-seq-push-not-atomic"}
-RULE = ("rng: ring capacities {1..9, 16, 0 and -1 (=10000)} x pushed runs of consecutive uint64 sequence numbers (fresh, wrapped "
+RULE = ("conc: HandleEvent called by concurrent handlers stopped by a gate inside sessionToCheckpoint (handshakes, no sleeps): all interleavings of start/completion of 2 and 3 handlers for capacities 2 and 4, random ones for 3-5 handlers mixed with uninterrupted events; monitors ring consecutive, stream order = sequence order, Range exact for every (from,to) in 0..n+1. "
+        "rng: ring capacities {1..9, 16, 0 and -1 (=10000)} x pushed runs of consecutive uint64 sequence numbers (fresh, wrapped "
         "1..3 times, starting at 1 / large / just below 2^63), queried with every (from,to) in a window around the retained "
         "range plus empty, inverted, far-away and (class 'huge') >= 2^63 bounds; every answer is held by the caller and read again after each of cap+1 further pushes. "
         "hist: a registry with 2-3 IPv4, 2 IANA and 2 PD pools; 12-45 operations over 7 sessions (IPoE/PPPoE/L2GW, optional "
@@ -395,9 +396,46 @@ def gen_hist(rng, mode, nops):
     return "hist %s %d %d %s %s" % ("lagbulk" if lag else "latest" if latest else "freshwrap" if wrapped else "fresh" if fresh else mode, cap, page, " ".join(pool_tokens(mode)), " ".join(ops))
 
 
+def gen_conc(rng, tier, out):
+    """HandleEvent run by concurrent handlers: every interleaving of start (up to the preemption point) and completion of
+    2 and 3 handlers (exhaustive), random ones for 4-5 handlers mixed with uninterrupted events."""
+    def interleavings(pending, started, acc):
+        if not pending and not started:
+            yield acc
+            return
+        if pending:
+            yield from interleavings(pending[1:], started + [pending[0]], acc + ["H:%d:%d" % (pending[0], pending[0])])
+        for i in started:
+            yield from interleavings(pending, [x for x in started if x != i], acc + ["F:%d" % i])
+    def emit(cap, ops):
+        case = "conc x %d %s" % (cap, " ".join(ops))
+        out.append(case.replace("conc x", "conc overlap" if _overlap(case) else "conc seq", 1))
+    for n in (2, 3):
+        for cap in (2, 4):
+            for ops in interleavings(list(range(1, n + 1)), [], []):
+                emit(cap, ops)
+    for _ in range(60 if tier == "quick" else 600):
+        n = rng.randint(3, 5)
+        pending, started, ops = list(range(1, n + 1)), [], []
+        while pending or started:
+            x = rng.random()
+            if pending and x < 0.4:
+                i = pending.pop(0)
+                started.append(i)
+                ops.append("H:%d:%d" % (i, i))
+            elif started and x < 0.8:
+                i = rng.choice(started)
+                started.remove(i)
+                ops.append("F:%d" % i)
+            else:
+                ops.append("E:%d" % rng.randint(6, 9))
+        emit(rng.choice([1, 2, 3, 8]), ops)
+
+
 def gen_cases(rng, tier, budget):
     out = []
     gen_rng(rng, tier, out)
+    gen_conc(rng, tier, out)
     n = (budget or 900) if tier == "quick" else (budget or 12000)
     modes = ["clean"] * 2 + ["fresh", "freshwrap", "lagbulk", "stale", "latest", "drop", "bulk", "relall"]
     for i in range(n):
@@ -413,6 +451,8 @@ def _flags(line):
 
 
 def nontrivial(case, out):
+    if case.startswith("conc"):
+        return case.split()[1] == "overlap"
     if case.startswith("rng"):
         parts = out.split(" ; ")[1:]
         return any(p == "nil" for p in parts) and any(p not in ("nil", "panic") for p in parts)
@@ -422,6 +462,12 @@ def nontrivial(case, out):
 
 
 def classify(case, impl, model):
+    if case.startswith("conc"):
+        bad = [m for m in ("ringconsec", "streamorder", "rangeexact") if (m + "=bad") in impl and (m + "=ok") in model]
+        if bad:
+            return "P", ("concurrent HandleEvent calls: %s violated (ring/stream: %s)" %
+                         (", ".join(bad), " ".join(impl.split()[1:3])))
+        return "G", "sender state differs from the model: impl=%r model=%r" % (impl[:200], model[:200])
     if case.startswith("rng"):
         ip, mp = impl.split(" ; "), model.split(" ; ")
         k = [i for i, (a, b) in enumerate(zip(ip, mp)) if a != b]
@@ -534,6 +580,14 @@ def _overlap(case):
 
 def shrink(case):
     t = case.split()
+    if t[0] == "conc":
+        ids = sorted({x.split(":")[1] for x in t[3:] if x[0] in "HF"})
+        for i in ids:
+            yield " ".join(t[:3] + [x for x in t[3:] if not (x[0] in "HF" and x.split(":")[1] == i)])
+        for k, x in enumerate(t[3:]):
+            if x.startswith("E:"):
+                yield " ".join(t[:3 + k] + t[4 + k:])
+        return
     if t[0] == "rng":
         aft = [x for x in t if x.startswith("A:")]
         t = [x for x in t if not x.startswith("A:")]
@@ -583,6 +637,11 @@ def distribution(cases, impl):
          "redeliver": 0, "replay": 0, "bulk": 0, "bulk_churn": 0, "store_failures": 0, "conv_bad": 0, "pools_bad": 0, "handler_panics": 0,
          "kinds": {"I": 0, "P": 0, "L": 0}, "with_v4": 0, "with_v6": 0, "with_pd": 0, "ops_max": 0}
     for c, o in zip(cases, impl):
+        if c.startswith("conc"):
+            d["conc"] = d.get("conc", 0) + 1
+            d["conc_overlap"] = d.get("conc_overlap", 0) + (c.split()[1] == "overlap")
+            d["conc_ring_out_of_order"] = d.get("conc_ring_out_of_order", 0) + ("ringconsec=bad" in (o or ""))
+            continue
         if c.startswith("rng"):
             d["rng"] += 1
             p = [x.split("~>")[0] for x in (o or "").split(" ; ")[1:]]
